@@ -429,7 +429,8 @@ def run(ctx):
                 what += ' || further templates of this class: ' + ' || '.join(re.search(r'template `(.*?)` for', w).group(1) for w, _, _ in lst[1:])
             ctx.violation(what, rt, ext, key=key)
         stats['findings_reproduced'] = sorted(set(stats['findings_reproduced']))
-        ctx.ob('K1:every-template-rejected-at-every-position (%d runs)' % len(results), not accepted_by_tpl)
+        ctx.ob('K1:every-template-rejected-at-every-position, except the templates of the listed known findings (%d runs)' % len(results),
+               not ctx.unknown_violations())
         ctx.ob('K1:every-template-triggers-its-own-site', not drift)
         if drift:
             det = ['%s at %s: %s' % (tid, ' '.join(p for p, _ in lst), lst[0][1][:200]) for tid, lst in sorted(drift.items())]
@@ -605,9 +606,14 @@ def k2_body(ctx, rng, thorough, oracle, stats, samples, nontrivial, viol):
         if rc == 0 and not s_ok:
             if not m_ok:
                 dis.append('cproc accepts, model %s, spec rejects: %r' % (a, cs))
-            if kind == 'bool' and not al and not pk and 1 < w <= 8:
+            isboolw = kind == 'bool' and 1 < w <= 8
+            # the two recorded deviations, alone or combined: _Bool treated as 8 bits wide, alignas invisible on unnamed bit-fields
+            relaxed = spec_bitfield('int' if isboolw else kind, size, w, named, al and named, pk)
+            if isboolw and relaxed:
                 boolfound = boolfound or (cs, src)
-            elif al and not named and spec_bitfield(kind, size, w, named, False, pk):
+                if al and not named and unnamedal is None:
+                    unnamedal = (cs, src)
+            elif al and not named and relaxed:
                 if unnamedal is None or (tn, w) == ('int', 8):
                     unnamedal = (cs, src)
             else:
